@@ -1,5 +1,6 @@
 import PgBifrost.Proofs.Marshal
 import PgBifrost.Proofs.MarshalPool
+import PgBifrost.Gen.MarshalSrc
 /-!
 # C10 — JSON rendering faithful and independent of earlier messages (property theorems)
 
@@ -256,5 +257,26 @@ example :
 
 example : (stageSeq false [default, { (default : Change) with operation := "BEGIN" }]).map (·.json.isSome) =
     [true, false] := by decide
+
+/-- **the column decision of the model is the loop in the source** (`marshal_columns_as_in_source`).
+`Gen/MarshalSrc.lean` is the body of `for k, v := range msg.Pr.Columns` of `marshalWalToJson` TRANSLATED on every
+run (the two-value map read of the old column with Go's zero value when absent, DELETE, the changed / TOAST /
+`noMarshalOldValue` branches with their `continue`s, which values go to `marshalColumnValuePair`, and that
+function puts its first argument under `"new"` and its second under `"old"`). The model's `colEntry` is EQUAL to
+it for every operation, option, old tuple, column name and value. -/
+theorem marshal_columns_as_in_source (op : String) (noOld : Bool) (old : List (String × CV)) (k : String) (v : CV) :
+    colEntry op noOld old (k, v) =
+      (k, marshalColumnValuePair (PgBifrost.Gen.MarshalSrc.colArgs op noOld old k v).1
+            (PgBifrost.Gen.MarshalSrc.colArgs op noOld old k v).2) := by
+  unfold colEntry PgBifrost.Gen.MarshalSrc.colArgs
+  by_cases hd : op = "DELETE"
+  · simp [hd, Id.run, pure, bind]
+  · cases ho : old.lookup k with
+    | none => simp [hd, ho, Id.run, pure, bind]
+    | some oldV =>
+      by_cases hv : v.value = oldV.value
+      · simp [hd, ho, hv, Id.run, pure, bind]
+      · by_cases ht : v.value = toastMarker <;> cases noOld <;>
+          simp [hd, ho, hv, ht, toastMarker, Id.run, pure, bind] <;> simp_all [toastMarker]
 
 end PgBifrost.Props.C10
